@@ -65,6 +65,7 @@ def prelude(tracking, base='_b0'):
 ''' % base + '''
 #include "spec_enc.h"
 size_t g_n;                 /* ghost: size of the input window object */
+const char* g_buf;          /* ghost: the window object itself (set by the harness) */
 _Bool vf_canary;            /* always 0: clauses `X || vf_canary` must FAIL when X is reachable-false */
 #define MAXN %d
 #define OFF(p) __CPROVER_POINTER_OFFSET(p)
@@ -116,8 +117,13 @@ _Bool vf_canary;            /* always 0: clauses `X || vf_canary` must FAIL when
 #define POS_AGREE(in, eolch) 1
 '''
     p += '''
-#define PTRS_OK(in) (__CPROVER_same_object(IN_BEGIN(in),IN_END(in)) && __CPROVER_same_object(CUR(in),IN_END(in)) \\
-   && OFF(IN_BEGIN(in))==0 && OFF(IN_END(in))==g_n && OFF(CUR(in))<=g_n)
+/* pointer_in_range_dfcc: when assumed (stub postconditions, loop invariants) CBMC builds the cursor as begin + offset,
+   so reads through the havocked cursor still see the window bytes */
+#define PTRS_OK_BASE(in) (__CPROVER_same_object(IN_BEGIN(in),IN_END(in)) && OFF(IN_BEGIN(in))==0 && OFF(IN_END(in))==g_n \\
+   && __CPROVER_same_object(CUR(in),IN_END(in)) && OFF(CUR(in))<=g_n)
+#define PTRS_OK(in) PTRS_OK_BASE(in)
+/* only in postconditions of stubs (assumed after the havoc of the iterator): rebuilds the cursor as begin + offset */
+#define CUR_IN_WINDOW(in) __CPROVER_pointer_in_range_dfcc(IN_BEGIN(in), CUR(in), IN_END(in))
 #define VALID_PRE(in) (__CPROVER_r_ok(in,sizeof(*(in))) && g_n<=MAXN && PTRS_OK(in) && CNT_OK(in) && __CPROVER_r_ok(IN_BEGIN(in),g_n))
 #define VALID_POST(in) (PTRS_OK(in) && CNT_POS(in) && IN_END(in)==OLD(IN_END(in)) && IN_BEGIN(in)==OLD(IN_BEGIN(in)))
 #define MONO(in) (OFF(CUR(in)) >= OFF(OLD(CUR(in))))
@@ -132,12 +138,16 @@ _Bool vf_canary;            /* always 0: clauses `X || vf_canary` must FAIL when
 def input_harness(intype_c, tracking, call, extra_decl='', pre_call='', base='_b0'):
     """harness building the exact-size window; `call` uses `&in`"""
     h = '''
+/* the harness is ordinary code: pointer predicates of the contract language are not available here */
+#undef PTRS_OK
+#define PTRS_OK(in) PTRS_OK_BASE(in)
 size_t w_n, w_k, w_byte, w_line, w_col; unsigned char w_b[8]; _Bool w_ret;
 int main(void)
 {
   __CPROVER_assume(g_n <= MAXN);
   char* buf = malloc(g_n);
   __CPROVER_assume(buf != 0);
+  g_buf = buf;
   %s in;
   size_t k; __CPROVER_assume(k <= g_n);
 #ifdef VF_SMALL
@@ -278,6 +288,7 @@ def rule_stub(spec, param='in'):
         for extra in s.get('requires', []):
             c.add(extra)
         c.add(A('IT_FIELDS(%s), g_turn, g_pos, g_done, g_iter, g_last, g_called[%d], g_ok[%d], g_len[%d], g_ncalls[%d], vf_exc, vf_exc_counter, g_exc_obj, g_exc_type' % (param, i, i, i, i)))
+        c.add(E('CUR_IN_WINDOW(%s)' % param, 'stub'))    # first: when assumed it (re)builds the cursor; the clauses below then constrain it
         c.add(E('BOOL01(RET) && BOOL01(g_ok[%d]) && BOOL01(vf_exc.pending) && BOOL01(g_done)' % i, 'stub'))
         c.add(E('PTRS_OK(%s) && CNT_POS(%s) && IN_END(%s)==OLD(IN_END(%s)) && IN_BEGIN(%s)==OLD(IN_BEGIN(%s))' % ((param,) * 6), 'stub'))
         c.add(E('MONO(%s)' % param, 'stub'))
